@@ -4,6 +4,7 @@ mod declared;
 mod decodelevel;
 mod detect;
 mod gen;
+mod memolevel;
 mod names;
 mod oracle;
 mod props;
@@ -70,6 +71,16 @@ fn main() {
             let n = arg(&args, "--n").and_then(|s| s.parse().ok()).unwrap_or(600);
             let r = decodelevel::run(seed, n, &driver, &out);
             eprintln!("decode: {} evaluations, {} disagreements, {} violations", r["evaluations"], r["disagreements"].as_array().unwrap().len(), r["violations"].as_array().unwrap().len());
+        }
+        "memo" => {
+            let n = arg(&args, "--histories").and_then(|s| s.parse().ok()).unwrap_or(30);
+            let r = memolevel::run_memo(seed, n, &out);
+            eprintln!("memo: {} evaluations, {} violations", r["evaluations"], r["violations"].as_array().unwrap().len());
+        }
+        "threads" => {
+            let n = arg(&args, "--rounds").and_then(|s| s.parse().ok()).unwrap_or(6);
+            let r = memolevel::run_threads(seed, n, &out);
+            eprintln!("threads: {} evaluations, {} violations", r["evaluations"], r["violations"].as_array().unwrap().len());
         }
         "total" => {
             let n = arg(&args, "--n").and_then(|s| s.parse().ok()).unwrap_or(200);
